@@ -75,30 +75,25 @@ func checkDouble(c *core.Ctx, s *sweepCodec, v float64, scratch []byte) {
 	}
 }
 
-// checkFloat32Typed passes the Go value as a float32 (its own branch of the encoder): the bytes must be those of
-// the double float64(f), and that double must come back.
+// checkFloat32Typed passes the Go value as a float32 (its own branch of the encoder): the bytes must be exactly
+// those written for the double float64(f) - which checkDouble has just decoded through every reader behaviour
+// and compared with the shortest exact form - so nothing needs to be decoded again.
 func checkFloat32Typed(c *core.Ctx, s *sweepCodec, f float32, scratch []byte) {
 	v := float64(f)
-	b, out, err := s.round(f)
+	s.buf.Reset()
+	err := s.enc.WriteTo(&s.buf, v)
+	want := append(scratch[:0], s.buf.Bytes()...)
+	s.buf.Reset()
+	if err == nil {
+		err = s.enc.WriteTo(&s.buf, f)
+	}
 	cs := fmt.Sprintf("float32-typed value %v (bits %08x)", f, math.Float32bits(f))
 	if err != nil {
-		c.Report(&core.Violation{Stage: "roundtrip", Kind: "error", Shape: "float32-typed " + dblShape(v), Message: msgClass(err.Error()), Case: cs})
+		c.Report(&core.Violation{Stage: "encode", Kind: "error", Shape: "float32-typed " + dblShape(v), Message: msgClass(err.Error()), Case: cs})
 		return
 	}
-	o, ok := out.(float64)
-	if !ok || !sameNumber(o, v) {
-		c.Report(&core.Violation{Stage: "decode", Kind: "mismatch", Shape: "float32-typed " + dblShape(v), Message: "a float32 does not come back as the double it denotes", Case: cs, Detail: fmt.Sprintf("bytes %x decoded %T(%v)", b, out, out)})
-		return
-	}
-	if math.IsNaN(v) {
-		return
-	}
-	want := rh.AppendDouble(scratch[:0], v, rh.ShortestDouble(v))
-	if v == 0 {
-		want = append(scratch[:0], 0x5b)
-	}
-	if !bytes.Equal(b, want) {
-		c.Report(&core.Violation{Stage: "encode", Kind: "form", Shape: "float32-typed " + dblShape(v), Message: fmt.Sprintf("a float32 is not written in the shortest exact form of its double: %d octets, shortest is %d", len(b), len(want)), Case: cs, Detail: fmt.Sprintf("got %x want %x", b, want)})
+	if b := s.buf.Bytes(); !bytes.Equal(b, want) {
+		c.Report(&core.Violation{Stage: "encode", Kind: "form", Shape: "float32-typed " + dblShape(v), Message: fmt.Sprintf("a float32 is not written as the double it denotes: %d octets instead of %d", len(b), len(want)), Case: cs, Detail: fmt.Sprintf("got %x want %x", b, want)})
 	}
 }
 
